@@ -385,12 +385,14 @@ func (c *Corpus) runChunk(reqs []Req, res []Res, chunk []int, o RunOpts, w int) 
 		runErr := cmd.Run()
 		// read results
 		done := map[int]bool{}
+		badLine := ""
 		if of, err := os.Open(outF); err == nil {
 			sc := bufio.NewScanner(of)
 			sc.Buffer(make([]byte, 1<<20), 1<<30)
 			for sc.Scan() {
 				var r Res
 				if err := json.Unmarshal(sc.Bytes(), &r); err != nil {
+					badLine = fmt.Sprintf("%v in %.200q", err, sc.Bytes())
 					continue // a torn last line
 				}
 				if r.Seq >= 0 && r.Seq < len(res) {
@@ -423,7 +425,7 @@ func (c *Corpus) runChunk(reqs []Req, res []Res, chunk []int, o RunOpts, w int) 
 			// every request must have a result
 			for _, i := range remaining {
 				if !done[i] {
-					return fmt.Errorf("runner exited 0 without a result for request %d", i)
+					return fmt.Errorf("runner exited 0 without a result for request %d (unreadable result line: %s)", i, badLine)
 				}
 			}
 			if c.Race && strings.Contains(stderrTail, "WARNING: DATA RACE") {
